@@ -564,6 +564,8 @@ const fn mul(a: u64, b: u64) -> u64 {
 #[inline(always)]
 #[allow(clippy::many_single_char_names)]
 fn inv(x: u64) -> u64 {
+    // the input can be in [0, 2M); M itself is a representation of zero
+    let x = normalize(x);
     if x == 0 {
         return 0;
     };
